@@ -75,7 +75,7 @@ TIgnored ==
 \* events that have no counterpart in this model (ledger, probes of other layers)
 TOther ==
   /\ l <= N /\ ~ign
-  /\ \/ E.e \in {"SrcCheck", "CloneElem", "Partial", "End"}
+  /\ \/ E.e \in {"SrcCheck", "CloneElem", "Partial", "End", "HintRead"}
      \/ (E.e \in {"Mem", "DropElem"} /\ ~OwnApplies)
   /\ Skip
 
